@@ -72,4 +72,56 @@ Proof.
   in_cases Ha; unfold bbox_rot90; cbn; repeat split; lra.
 Qed.
 
+(* ---- relations BETWEEN the lattice maps (presentation of the dihedral group of the xy plane) ---- *)
+(* a quarter turn is the transpose followed by the vertical flip *)
+Lemma bbox_rot90_is_transpose_vflip b :
+  res_box_eq (bbox_rot90 b 1 "xy" r c s) (do b1 <- bbox_transpose b 0 r c s; Ok (bbox_vflip b1 r' c' s')).
+Proof. destruct_box b. unfold bbox_rot90, bbox_transpose, bbox_vflip. cbn. repeat split; lra. Qed.
+(* three quarter turns: the transpose followed by the horizontal flip *)
+Lemma bbox_rot270_is_transpose_hflip b :
+  res_box_eq (bbox_rot90 b 3 "xy" r c s) (do b1 <- bbox_transpose b 0 r c s; Ok (bbox_hflip b1 r' c' s')).
+Proof. destruct_box b. unfold bbox_rot90, bbox_transpose, bbox_hflip. cbn. repeat split; lra. Qed.
+(* a half turn in a plane is the two flips of that plane *)
+Lemma bbox_rot180_is_two_flips b :
+  res_box_eq (bbox_rot90 b 2 "xy" r c s) (Ok (bbox_vflip (bbox_hflip b r c s) r' c' s')) /\
+  res_box_eq (bbox_rot90 b 2 "yz" r c s) (Ok (bbox_zflip (bbox_vflip b r c s) r' c' s')) /\
+  res_box_eq (bbox_rot90 b 2 "xz" r c s) (Ok (bbox_zflip (bbox_hflip b r c s) r' c' s')).
+Proof. destruct_box b. unfold bbox_rot90, bbox_vflip, bbox_hflip, bbox_zflip. cbn. repeat split; lra. Qed.
+(* the transpose about the second diagonal is the transpose followed by a half turn *)
+Lemma bbox_antitranspose_is_transpose_rot180 b :
+  res_box_eq (bbox_transpose b 1 r c s) (do b1 <- bbox_transpose b 0 r c s; bbox_rot90 b1 2 "xy" r' c' s').
+Proof. destruct_box b. unfold bbox_rot90, bbox_transpose. cbn. repeat split; lra. Qed.
+(* conjugating k quarter turns of the xy plane by a flip of that plane gives 4-k quarter turns *)
+Lemma bbox_flip_conjugates_rot90 b k : In k factors ->
+  res_box_eq (do b1 <- bbox_rot90 (bbox_vflip b r c s) k "xy" r c s; Ok (bbox_vflip b1 r' c' s'))
+             (bbox_rot90 b ((4 - k) mod 4) "xy" r c s) /\
+  res_box_eq (do b1 <- bbox_rot90 (bbox_hflip b r c s) k "xy" r c s; Ok (bbox_hflip b1 r' c' s'))
+             (bbox_rot90 b ((4 - k) mod 4) "xy" r c s).
+Proof.
+  intros Hk. destruct_box b. unfold factors in Hk.
+  in_cases Hk; unfold bbox_rot90, bbox_vflip, bbox_hflip; cbn; repeat split; lra.
+Qed.
+(* the flip along the axis a plane does not contain commutes with the quarter turns of that plane *)
+Lemma bbox_zflip_commutes_rot90_xy b k : In k factors ->
+  res_box_eq (do b1 <- bbox_rot90 b k "xy" r c s; Ok (bbox_zflip b1 r' c' s'))
+             (bbox_rot90 (bbox_zflip b r c s) k "xy" r c s).
+Proof.
+  intros Hk. destruct_box b. unfold factors in Hk.
+  in_cases Hk; unfold bbox_rot90, bbox_zflip; cbn; repeat split; lra.
+Qed.
+Lemma bbox_hflip_commutes_rot90_yz b k : In k factors ->
+  res_box_eq (do b1 <- bbox_rot90 b k "yz" r c s; Ok (bbox_hflip b1 r' c' s'))
+             (bbox_rot90 (bbox_hflip b r c s) k "yz" r c s).
+Proof.
+  intros Hk. destruct_box b. unfold factors in Hk.
+  in_cases Hk; unfold bbox_rot90, bbox_hflip; cbn; repeat split; lra.
+Qed.
+Lemma bbox_vflip_commutes_rot90_xz b k : In k factors ->
+  res_box_eq (do b1 <- bbox_rot90 b k "xz" r c s; Ok (bbox_vflip b1 r' c' s'))
+             (bbox_rot90 (bbox_vflip b r c s) k "xz" r c s).
+Proof.
+  intros Hk. destruct_box b. unfold factors in Hk.
+  in_cases Hk; unfold bbox_rot90, bbox_vflip; cbn; repeat split; lra.
+Qed.
+
 End Frame.
